@@ -262,6 +262,30 @@ pub fn cache_cases(rng: &mut Rng, thorough: bool) -> Vec<RsCase> {
             }
         }
     }
+    // (b2) scale: many distinct arguments (each called twice, interleaved), large arguments, many rules sharing one cache
+    for n in [40usize, 200, 1000] {
+        let arg = |i: usize| Value::Int((i * 7919 % n) as i128);
+        let mut calls: Vec<Expr> = vec![];
+        for i in 0..n {
+            calls.push(call("g", lit(arg(i))));
+        }
+        for i in (0..n).rev() {
+            calls.push(call("g", lit(arg(i))));
+            if i % 5 == 0 {
+                calls.push(call("h", lit(arg(i))));
+            }
+        }
+        out.push(RsCase { tag: format!("many-args n{}", n), rules: vec![Expr::Vec(calls.clone())], facts: Value::None, env: mk_env([true, true, false], [1, 1, 1], &[vec![], vec![], vec![]]), evals: 2 });
+        // one call per rule: the cache is shared by all rules of the evaluation
+        out.push(RsCase { tag: format!("many-rules n{}", n), rules: calls.iter().take(400).cloned().collect(), facts: Value::None, env: mk_env([true, true, false], [1, 1, 1], &[vec![7, 8, 30], vec![], vec![]]), evals: 2 });
+    }
+    {
+        // large, nearly equal arguments (they differ in the last element / a deep element only)
+        let big = |last: i128| Value::Vec((0..300).map(|i| if i == 299 { Value::Int(last) } else { Value::Int(i) }).collect());
+        let bigs = |last: &str| Value::String(format!("{}{}", "é日".repeat(150), last));
+        let calls = vec![call("g", lit(big(1))), call("g", lit(big(2))), call("g", lit(big(1))), call("g", lit(bigs("a"))), call("g", lit(bigs("b"))), call("g", lit(bigs("a")))];
+        out.push(RsCase { tag: "large-args".into(), rules: vec![Expr::Vec(calls)], facts: Value::None, env: mk_env([true, true, false], [1, 1, 1], &[vec![], vec![], vec![]]), evals: 2 });
+    }
     // (c) random histories
     let n = if thorough { 30000 } else { 3000 };
     for _ in 0..n {
